@@ -80,7 +80,8 @@ def convex_hull(coordinates: List[Coordinate]) -> List[Coordinate]:
 
 
 def circumscribing_circle_for_triangle(
-    points: List[Coordinate]
+    points: List[Coordinate],
+    on_boundary: bool = False
 ) -> Tuple[Optional[Coordinate], Optional[float]]:
     """
     Supporting function for circumscribing_circle_for_polygon().
@@ -123,8 +124,10 @@ def circumscribing_circle_for_triangle(
     if not is_counter_clockwise(points):
         points = list(reversed(points))
 
-    # Test for trivial circle
-    for i in range(3):
+    # Test for trivial circle (not when all three points are required to lie on the circle:
+    # Welzl's base case needs the circle through its three boundary points even if they
+    # form an obtuse triangle)
+    for i in range(0 if on_boundary else 3):
         p = points[i]
         other_p = points[:i] + points[i+1:]
         midp = [(v1+v2)/2 for v1, v2 in zip(other_p[0].xyz, other_p[1].xyz)]
@@ -165,7 +168,7 @@ def circumscribing_circle_for_polygon(
         (Coordinate, float) tuple of (Circumcenter, Radius in meters)
     """
     if len(known_points) == 3:
-        return circumscribing_circle_for_triangle(known_points)
+        return circumscribing_circle_for_triangle(known_points, on_boundary=True)
     if len(all_points) == 0:
         return circumscribing_circle_for_triangle(known_points)
     i = random.randrange(0, len(all_points))
